@@ -182,8 +182,20 @@ func (l e2eEvents) TCPError(addr net.Addr, id, reqAddr string, err error)   {}
 func (l e2eEvents) UDPRequest(addr net.Addr, id string, sid uint32, reqAddr string) {}
 func (l e2eEvents) UDPError(addr net.Addr, id string, sid uint32, err error) {}
 
+// quic-go's monotonic clock counts from the process start (real time); a synctest bubble starts at
+// 2000-01-01, which would make every monotonic timestamp negative (an artefact no real process can see).
+// Move the bubble's clock past the process start before anything else happens.
+var e2eProcStart = time.Now()
+
+func e2eWarpClock() {
+	if d := e2eProcStart.Sub(time.Now()); d > -time.Hour {
+		time.Sleep(d + 24*time.Hour)
+	}
+}
+
 // ---- world ----
 func e2eNewWorld(tr *kit.Trace) *e2eWorld {
+	e2eWarpClock()
 	return &e2eWorld{tr: tr, net: kit.NewMemNet(), outCall: map[string]int{}}
 }
 
